@@ -90,6 +90,11 @@ def with_missing(cells, marker="none"):
                 col[r] = None
                 df[c] = col
         return df
+    if marker == "ordcat":  # ordered categoricals declaring a category that never occurs (and one that may vanish with a dropped row)
+        out = with_missing(cells, "none")
+        for c, cats in (("f", ["c", "zz", "a", "b"]), ("g", ["g2", "g1", "g0"]), ("h", ["h3", "h1", "hx", "h2"]), ("yc", ["b", "q", "c", "a"])):
+            out[c] = pd.Categorical(out[c], categories=cats, ordered=True)
+        return out
     if marker == "dupindex":
         out = with_missing(cells, "none")
         out.index = [0, 0, 1, 1, 0, 2]  # labels shared between complete and incomplete rows
@@ -145,6 +150,8 @@ def units(tier, seed):
         u.append([{"kind": "patterns", "i": i, "tier": "single", "marker": "dupindex"}])
     for i in (0, 1, 2, 15, 24, 25):
         u.append([{"kind": "patterns", "i": i, "tier": "single", "marker": "nullable"}])
+    for i in (10, 12, 13, 14, 17, 19, 20, 22, 23):
+        u.append([{"kind": "patterns", "i": i, "tier": "single", "marker": "ordcat"}])
     for i in range(len(POOL)):
         u.append([{"kind": "patterns", "i": i, "tier": tier, "marker": m} for m in (["none"] if tier == "quick" else ["none", "nan"])])
     return u
@@ -179,9 +186,14 @@ def check_patterns(case, acc):
         build(case["after"], clean())  # an earlier, unrelated design in the same process
     refcache = {}
     clean_df = clean()
-    full = mats(build(f, clean_df))
+    ref_frame = with_missing([], "ordcat") if case["marker"] == "ordcat" else clean_df
+    try:
+        full = mats(build(f, ref_frame))
+    except Exception:
+        acc.case(case, "not-encodable-on-this-frame")  # e.g. C(<ordered categorical declaring an unobserved category>)
+        return
     terms_of = {}
-    dm0 = build(f, clean_df)
+    dm0 = build(f, ref_frame)
     if dm0.common is not None:
         terms_of = {k: (v.start, v.stop) for k, v in dm0.common.slices.items()}
     nhit = 0
@@ -199,7 +211,7 @@ def check_patterns(case, acc):
         key = tuple(kept)
         if key not in refcache:
             try:
-                refcache[key] = mats(build(f, clean_df.iloc[kept].reset_index(drop=True)))
+                refcache[key] = mats(build(f, ref_frame.iloc[kept].reset_index(drop=True)))
             except Exception as e:
                 refcache[key] = e
         ref = refcache[key]
